@@ -767,7 +767,7 @@ static void setup()
 		unsigned t = (unsigned) (i % 125);
 		algebra_case(rng, 1 + t / 25, 1 + (t / 5) % 5, 1 + t % 5);
 	});
-	add_generator("shapes_random_upto8", ctx().count(8000, 1000000), [](Rng& rng, uint64_t) {
+	add_generator("shapes_random_upto8", ctx().count(8000, 3000000), [](Rng& rng, uint64_t) {
 		unsigned m, n, k;
 		do
 		{
@@ -775,9 +775,9 @@ static void setup()
 		} while(m <= 5 && n <= 5 && k <= 5);
 		algebra_case(rng, m, n, k);
 	});
-	add_generator("object_histories", ctx().count(6000, 600000), [](Rng& rng, uint64_t i) { la::matrix_history_case(rng, i, false); });
+	add_generator("object_histories", ctx().count(6000, 1800000), [](Rng& rng, uint64_t i) { la::matrix_history_case(rng, i, false); });
 	build_catalogue();
 	add_generator("unequal_shapes_catalogue", cat.size(), [](Rng&, uint64_t i) { run_request(cat[i]); });
-	add_generator("unequal_shapes_random", ctx().count(1600, 20000), random_request);
+	add_generator("unequal_shapes_random", ctx().count(1600, 60000), random_request);
 }
 VERIF_MAIN("C04", setup)
